@@ -83,13 +83,16 @@ def walk(
                 target_sig = replace(
                     _copy_to_internal(m.signals[key]), name=new_sig_name
                 )
+                # Note which net this is: internal signal `key` of the module at instance-path `parents`.
+                target_sig._flat_src = (tuple(id(p) for p in parents), key)
             elif key in m.ports:
                 target_sig = replace(_copy_to_internal(m.ports[key]), name=new_sig_name)
+                target_sig._flat_src = (tuple(id(p) for p in parents), key)
             else:
                 raise ValueError(f"signal {key} not found")
             new_conns[src_port_name] = target_sig
 
-        if isinstance(inst.of, h.PrimitiveCall):
+        if isinstance(inst.of, (h.PrimitiveCall, h.ExternalModuleCall)):
             yield FlattenedInstance(inst, new_parents, new_conns)
         else:
             yield from walk(inst.of, new_parents, new_conns)
@@ -180,16 +183,38 @@ def flatten(m: h.Instantiable) -> h.Instantiable:
     for port in m.ports.values():
         new_module.add(copy.copy(port))
 
+    # The net each name of the flat module stands for: the top-level Signal or Port itself,
+    # or the (instance-path, name) of a signal internal to a sub-module.
+    # Path-joined names can coincide with names the designer chose, or with each other; merging such nets
+    # or replacing such instances would change the circuit, so flattening fails instead.
+    nets = {port.name: port for port in m.ports.values()}
+
+    def _net(sig):
+        return getattr(sig, "_flat_src", sig)
+
+    def _same(a, b) -> bool:
+        return a is b or (isinstance(a, tuple) and isinstance(b, tuple) and a == b)
+
     # add all signals to the root level
     for n in nodes:
         for sig in n.conns.values():
-            sig_name = sig.name
-            if sig_name not in new_module.ports:
+            if sig.name not in nets:
+                if new_module.get(sig.name) is not None:
+                    msg = f"Cannot flatten {m}: name `{sig.name}` is needed for both a signal and an instance"
+                    raise RuntimeError(msg)
+                nets[sig.name] = _net(sig)
                 new_module.add(copy.copy(sig))
+            elif not _same(nets[sig.name], _net(sig)):
+                msg = f"Cannot flatten {m}: two different nets would both be named `{sig.name}`"
+                raise RuntimeError(msg)
 
     # add all connections to the root level with names resolved
     for n in nodes:
-        new_inst = new_module.add(n.inst.of(), name=n.make_name())
+        name = n.make_name()
+        if new_module.get(name) is not None:
+            msg = f"Cannot flatten {m}: name `{name}` is needed more than once"
+            raise RuntimeError(msg)
+        new_inst = new_module.add(n.inst.of(), name=name)
 
         for src_port_name, sig in n.conns.items():
             matching_sig = _find_signal_or_port(new_module, sig.name)
